@@ -107,7 +107,7 @@ def run(prog, run):
                 if n.get('op'):
                     continue
                 for g in prog.callee_fns(f, n):
-                    if g.file == f.file and g.entry is not None and g.id != f.id and 'QString' in (n.get('t') or ''):
+                    if g.file == f.file and g.entry is not None and g.id != f.id and ('QString' in (n.get('t') or '') or any(True for _ in g.calls('QXmppStunMessage::decode'))):
                         r = cond_of(g, depth + 1)
                         if r:
                             return r
@@ -118,14 +118,46 @@ def run(prog, run):
         run.ok(r2, hd.loc(), 'receive: (type & 0xFF00) ? remote : local; send: (type & 0xFF00) ? local : remote')
     else:
         run.violation(r2, 'ice-password-by-class', hd.loc(), 'password selection receive=%s send=%s is not symmetric' % (rc, wc))
-    # decode is called with that password
+    # decode is called with that password: its key argument is the local the class-dependent choice is stored in (in the handler, or in the helper that decodes)
     run.instance(r2)
-    dn = hd.nodes[decode_calls[0]]
-    if 'messagePassword' in hd.fmt(dn['args'][1], inline=False):
-        run.ok(r2, hd.loc(decode_calls[0]), 'decode(buffer, messagePassword.toUtf8(), …)')
+    site = None
+    for i, n in hd.calls('QXmppStunMessage::decode'):
+        site = (hd, i)
+    if site is None:
+        for i, n in hd.calls():
+            if not n.get('op'):
+                for g in prog.callee_fns(hd, n):
+                    if g.file == hd.file and g.entry is not None:
+                        for j, m in g.calls('QXmppStunMessage::decode'):
+                            site = (g, j)
+    keyed = False
+    if site:
+        g, j = site
+        key = g.nodes[j]['args'][1]
+        # a key that is a parameter of the decoding helper: continue with what the handler passes for it
+        kn = g.nodes[g.skip(key)]
+        roots = [x for x in g.walk(key) if g.nodes[x]['k'] == 'var' and g.nodes[x].get('vk') == 'param']
+        if g.id != hd.id and roots:
+            pidx = g.nodes[roots[0]].get('pidx')
+            for ci, cn_ in hd.calls():
+                if not cn_.get('op') and any(h.id == g.id for h in prog.callee_fns(hd, cn_)) and pidx is not None and pidx < len(cn_.get('args', [])):
+                    g, key = hd, cn_['args'][pidx]
+        for x in g.walk(key):
+            v = g.nodes[x]
+            if v['k'] == 'var' and v.get('vk') == 'local':
+                for d0 in g.all_defs(v['decl']):
+                    dn0 = g.nodes[g.skip(d0)]
+                    if dn0['k'] == 'cond' and ('65280' in g.fmt(dn0['c'], inline=False) or '0xff00' in g.fmt(dn0['c'], inline=False).lower()):
+                        keyed = True
+                    if dn0['k'] == 'call' and not dn0.get('op'):
+                        for h in prog.callee_fns(g, dn0):
+                            if h.file == g.file and h.entry is not None and cond_of(h, 1):
+                                keyed = True
+    if keyed:
+        run.ok(r2, site[0].loc(site[1]), 'decode() is keyed with the password chosen by message class')
     else:
-        run.violation(r2, 'handleDatagram#decode-key', hd.loc(decode_calls[0]), 'the datagram is decoded with %s' % hd.fmt(dn['args'][1], inline=False)[:60])
-
+        run.violation(r2, 'handleDatagram#decode-key', site[0].loc(site[1]) if site else hd.loc(),
+                      'the datagram is decoded with %s, which is not the password chosen by message class' % (site[0].fmt(site[0].nodes[site[1]]['args'][1], inline=False)[:60] if site else '?'))
     r3 = run.rule('C15.R3', 'a keyed decode cannot succeed without a verified MESSAGE-INTEGRITY (= C14.R3; R1 is only meaningful with it)', floor=1)
     run.instance(r3)
     dec = prog.fn('QXmppStunMessage::decode')
